@@ -185,14 +185,23 @@ func (s *swamp) PatchFields(key string, ops []msgpackpatch.Op, condition *msgpac
 	// guard. Without the in-guard re-check, a concurrent goroutine that finishes its create+
 	// patch in the window between the early beaconKey.Get and CreateTreasure would let this
 	// caller silently overwrite the patched body with the seed.
-	treasureObj := s.beaconKey.Get(key)
+	// (the lookup is repeated if the object was removed while we waited for its guard: see CreateTreasureGuarded)
+	var treasureObj treasure.Treasure
+	var guardID guard.ID
 	createdNew := false
-	if treasureObj == nil {
-		treasureObj = s.CreateTreasure(key)
-		createdNew = true
+	for {
+		treasureObj = s.beaconKey.Get(key)
+		createdNew = false
+		if treasureObj == nil {
+			treasureObj = s.CreateTreasure(key)
+			createdNew = true
+		}
+		guardID = treasureObj.StartTreasureGuard(true)
+		if treasureObj.GetDeletedAt() == 0 {
+			break
+		}
+		treasureObj.ReleaseTreasureGuard(guardID)
 	}
-
-	guardID := treasureObj.StartTreasureGuard(true)
 	defer treasureObj.ReleaseTreasureGuard(guardID)
 
 	saved := false
